@@ -668,7 +668,14 @@ class _Walker:
             self.expr(s.test)
         elif isinstance(s, (ast.FunctionDef, ast.AsyncFunctionDef)):
             pass
-        # pass / global / import: nothing
+        elif isinstance(s, ast.ImportFrom):
+            mod = self.f.module._abs_module(s.level, s.module)
+            for a in s.names:
+                self.env[a.asname or a.name] = {('global', mod, a.name)}
+        elif isinstance(s, ast.Import):
+            for a in s.names:
+                self.env[a.asname or a.name.split('.')[0]] = {('global', a.name, '<module>')}
+        # pass / global: nothing
 
     def shape_of(self, o: Origin, depth: int, seen: Tuple) -> Tuple:
         if o[0] != 'fresh':
